@@ -89,6 +89,30 @@ pub fn gen_radial(rng: &mut Rng) -> Item {
     Item::Radial { hdr, spec, bytes }
 }
 
+/// A radial laid out byte for byte like `item` (same pointer table, same block sizes) whose last
+/// moment block carries another moment's name: equal offsets do not mean equal contents.
+pub fn twin_radial(item: &Item, rng: &mut Rng) -> Option<Item> {
+    let Item::Radial { hdr, spec, .. } = item else { return None };
+    let mut spec = spec.clone();
+    let present: Vec<[u8; 3]> = spec.blocks.iter().filter_map(|b| if let enc::Block::Mom(m) = b { Some(m.name) } else { None }).collect();
+    let unused: Vec<[u8; 3]> = enc::MOMENT_NAMES.iter().map(|n| **n).filter(|n| !present.contains(n)).collect();
+    if present.is_empty() || unused.is_empty() {
+        return None;
+    }
+    let new_name = unused[rng.usize_below(unused.len())];
+    for b in spec.blocks.iter_mut().rev() {
+        if let enc::Block::Mom(m) = b {
+            m.name = new_name;
+            break;
+        }
+    }
+    let mut hdr = hdr.clone();
+    hdr.seq = hdr.seq.wrapping_add(1);
+    let body = spec.encode(rng);
+    let bytes = enc::msg31_bytes(&hdr, &body);
+    Some(Item::Radial { hdr, spec, bytes })
+}
+
 fn header_matches(m: &Message, h: &MsgHeader) -> Option<String> {
     let d = m.header();
     let pairs: [(&str, u64, u64); 8] = [
@@ -388,6 +412,14 @@ distinct = distinct kind sequences / (message index, offset-in-message class, ty
         let mut items: Vec<Item> = Vec::with_capacity(len);
         let mut code_cursor = rng.u8();
         for _ in 0..len {
+            // a radial with its predecessor's exact layout and another moment in the last slot
+            if !items.is_empty() && rng.chance(1, 8) {
+                let prev: Item = items[items.len() - 1].clone();
+                if let Some(t) = twin_radial(&prev, &mut rng) {
+                    items.push(t);
+                    continue;
+                }
+            }
             // a retransmitted message: byte-identical to its predecessor, still a message of its own
             if !items.is_empty() && rng.chance(1, 10) {
                 let prev: Item = items[items.len() - 1].clone();
